@@ -4,8 +4,8 @@ cd /verif
 run() { dev/mutant.sh "$@" >> /var/tmp/mutant_matrix.log 2>&1; }
 : > /var/tmp/mutant_matrix.log
 run F2-revert C11
-run F1-revert C04
-run F1-revert C11 --only "c11_dual_parser_like_raw"
+run F1-revert C04 --only "c04_dual"
+run F1-revert C11 --only "c11_dual_parser"
 run m01-C01 C01 --only "c01_new_is_base_case|c01_step_0_1$"
 run m01-C01 C12
 run m05-C12 C12
